@@ -315,9 +315,8 @@ impl FileTimeMatcher {
                 e.duration()
             }
         };
-        // An age beyond i64 seconds saturates instead of wrapping to the other sign.
-        let age_in_seconds: i64 =
-            i64::try_from(age.as_secs()).unwrap_or(i64::MAX) * if is_negative { -1 } else { 1 };
+        // (whole days first: they fit an i64 whatever the age in seconds is)
+        let whole_days = (age.as_secs() / SECONDS_PER_DAY as u64) as i64;
 
         // rust division truncates towards zero (see
         // https://github.com/rust-lang/rust/blob/master/src/libcore/ops.rs#L580 )
@@ -332,7 +331,7 @@ impl FileTimeMatcher {
             0
         };
 
-        let age_in_days = age_in_seconds / SECONDS_PER_DAY + negative_offset;
+        let age_in_days = whole_days * if is_negative { -1 } else { 1 } + negative_offset;
         Ok(self.days.imatches(age_in_days))
     }
 
@@ -385,10 +384,13 @@ impl FileAgeRangeMatcher {
                 e.duration()
             }
         };
-        // An age beyond i64 seconds saturates instead of wrapping to the other sign.
-        let age_in_seconds: i64 =
-            i64::try_from(age.as_secs()).unwrap_or(i64::MAX) * if is_negative { -1 } else { 1 };
-        let age_in_minutes = age_in_seconds / 60 + if is_negative { -1 } else { 0 };
+        // (whole minutes first: they fit an i64 whatever the age in seconds is)
+        let whole_minutes = (age.as_secs() / 60) as i64;
+        let age_in_minutes = if is_negative {
+            -whole_minutes - 1
+        } else {
+            whole_minutes
+        };
         Ok(self.minutes.imatches(age_in_minutes))
     }
 
